@@ -140,6 +140,7 @@ def run_case(case):
         f = long_low_rom_pointer(base)
         ps = set(range(0x200)) | {0x7FFE, 0x7FFF, 0x8000, 0x8001, 0xFFFF, 0x10000, 0x1234, 0x48000}
         n = nt = 0
+        kept = []
         for p in sorted(ps):
             o = base + p
             if o > 0x3FFFFF:
@@ -150,8 +151,14 @@ def run_case(case):
             a = expected_snes(o, "low_rom")
             exp = struct.pack("<I", a)[:3]
             got = f(p)
+            kept.append((p, got, exp))
             if got != exp:
                 viol.append({"key": "legacy:long_low_rom_pointer", "msg": f"base {base:#x} p {p:#x}: {got!r} expected {exp!r}"})
+                break
+        # the values are looked at AGAIN after all calls were made (a converter must hand out values, not a shared buffer)
+        for p, got, exp in kept:
+            if bytes(got) != exp and not viol:
+                viol.append({"key": "legacy:long_low_rom_pointer", "msg": f"base {base:#x} p {p:#x}: the value returned earlier now reads {bytes(got)!r}, expected {exp!r} (later calls changed it)"})
                 break
         return {"evals": n, "nt_count": nt, "outcome": "lptr", "violations": viol}
     from script.formulas import base_relative_16bits_pointer_formula
@@ -165,4 +172,15 @@ def run_case(case):
         if got != v + base:
             viol.append({"key": "legacy:base_relative_16bits", "msg": f"base {base:#x} bytes {b.hex()}: {got:#x} expected {v + base:#x}"})
             break
+        if v % 257 == 0:
+            # records that carry more than the pointer (a third attribute byte): only the 16-bit value is decoded
+            for extra in (b"\x01", b"\xff\x7f"):
+                try:
+                    got3 = f(b + extra)
+                except Exception:  # noqa: BLE001 - refusing a longer record is acceptable
+                    continue
+                n += 1
+                if got3 != v + base:
+                    viol.append({"key": "legacy:base_relative_16bits", "msg": f"base {base:#x} bytes {(b + extra).hex()}: {got3:#x} expected {v + base:#x} (bytes after the 16-bit value are not part of it)"})
+                    break
     return {"evals": n, "nt_count": 256, "outcome": "rel16", "violations": viol}
